@@ -5,7 +5,8 @@
 From Coq Require Import ZArith List Bool.
 From V Require Import C08Flv C08Fanout.
 From V Require Import StreamLts Cache LtsWire C02Classify CacheProofs LtsJoinProofs C02ClassifyProofs
-                      C02FlvProducer C02FlvProducerProofs C02FlvViewers C02FlvViewersProofs C02FanoutJoinProofs.
+                      C02FlvProducer C02FlvProducerProofs C02FlvViewers C02FlvViewersProofs C02FanoutJoinProofs
+                      LtsOracle C02JoinSeam C02JoinSeamProofs.
 Import ListNotations.
 
 (* ---------------- A. what the cache replays ---------------- *)
@@ -109,6 +110,32 @@ Theorem C02_join_no_repeat :
     forall p, In p (c_prefill k) -> ~ In p (jselect (c_keep k) (jwindow (s_sent _ s) r (c_unregat k))).
 Proof. exact join_no_repeat_rcache. Qed.
 Print Assumptions C02_join_no_repeat.
+
+(* ANY replay length, ANY queue limit ([maxq] is quantified and constrained by nothing): right
+   after the replayed part the joiner is handed every live packet up to the next key start — the
+   rest of the GOP it was replayed — whether or not it drains its queue; while no key start has
+   been broadcast since it registered it is not in discarding mode and what was pushed to it is
+   exactly  replay ++ live packets from the registration point on.  (The queue limit acts only at a
+   key start, C04; a replay longer than the limit must not count against the joiner.) *)
+Theorem C02_join_contiguous_any_replay_length :
+  forall maxq gopon ncons panic_at pkts stoppers sched,
+  Forall (fun t => t <> TClose) sched ->
+  let s := run fixed maxq rcache (rc_empty gopon) rc_add rc_snap ncons panic_at sched
+               (init rcache (rc_empty gopon) pkts stoppers) in
+  forall c r, c_regat (s_cs _ s c) = Some r ->
+    let k := s_cs _ s c in
+    let w := jwindow (s_sent _ s) r (c_unregat k) in
+    let n := length (nk w) in
+    c_pushed k = spec_snap gopon (firstn r (s_sent _ s)) ++ nk w ++ jselect (skipn n (c_keep k)) (skipn n w) /\
+    (nk w = w -> c_disc k = false /\ c_pushed k = spec_snap gopon (firstn r (s_sent _ s)) ++ w).
+Proof. exact join_contiguous_any_replay_length_rcache. Qed.
+Print Assumptions C02_join_contiguous_any_replay_length.
+
+(* the seam oracle applied to the implementation (stream "join-replay-longer-than-limit") accepts
+   the model for every case, every queue limit *)
+Theorem C02_seam_model_passes : forall c : lcase, seam_ok c (obs_of_state (l_n c) (lrun c)) = true.
+Proof. exact seam_model_passes. Qed.
+Print Assumptions C02_seam_model_passes.
 
 (* the code before the join mutex (variant [original]) violates both directions — D1 *)
 Theorem C02_join_repeat_refuted :
@@ -280,6 +307,30 @@ Definition c02_nv_case : lcase :=
      l_sched := [TPub; TPub; TPub; TPub; TPub; TPub; TPub; TPub; TPub;
                  TAtt 0; TAtt 0; TAtt 0; TPub; TPub; TPub];
      l_panic := [O] |}.
+
+(* queue limit 1; SPS PPS key v v are published, the consumer joins (replay of 5 > 1), two more
+   packets of the same GOP are published, the consumer never runs *)
+Definition c02_nv_long : lcase :=
+  {| l_var := fixed; l_n := 1; l_maxq := 1; l_gop := true;
+     l_pkts := [ {| p_id := 1; p_kind := 3 |}; {| p_id := 2; p_kind := 4 |}; {| p_id := 3; p_kind := 2 |};
+                 {| p_id := 4; p_kind := 1 |}; {| p_id := 5; p_kind := 1 |}; {| p_id := 6; p_kind := 1 |};
+                 {| p_id := 7; p_kind := 1 |} ];
+     l_stop := [false];
+     l_sched := repeat TPub 15 ++ [TAtt 0; TAtt 0; TAtt 0] ++ repeat TPub 6;
+     l_panic := [O] |}.
+
+Example C02_nonvacuous_replay_longer_than_limit :
+  Forall (fun t => t <> TClose) (l_sched c02_nv_long) /\
+  (let s := lrun c02_nv_long in let k := s_cs _ s 0 in
+   c_regat k = Some 5%nat /\ (l_maxq c02_nv_long < length (c_prefill k))%nat /\
+   nk (jwindow (s_sent _ s) 5 (c_unregat k)) = jwindow (s_sent _ s) 5 (c_unregat k) /\
+   map p_id (c_pushed k) = [1; 2; 3; 4; 5; 6; 7]%Z /\ c_disc k = false /\
+   seam_ok c02_nv_long (obs_of_state 1 s) = true).
+Proof.
+  split.
+  - repeat constructor; discriminate.
+  - vm_compute. repeat split; try reflexivity. repeat constructor.
+Qed.
 
 Example C02_nonvacuous :
   Forall (fun t => t <> TClose) (l_sched c02_nv_case) /\
